@@ -133,6 +133,11 @@ pub fn gen_unary(r: &mut Rng, k: u64) -> OpCase {
                 rand_pos(r, n)
             }
         }
+        // sigmoid is total: far beyond the range in which exp(-x) is finite the value is 0 or 1 and the derivative 0
+        3 if kind == OpKind::Sigmoid && r.chance(1, 4) => {
+            let ext: &[f64] = if crate::cg::IS_F32 { &[-200.0, -104.0, -90.0, -30.0, 30.0, 90.0, 200.0] } else { &[-2000.0, -746.0, -710.0, -90.0, -30.0, 30.0, 710.0, 2000.0] };
+            (0..n).map(|_| *r.pick(ext)).collect()
+        }
         3 => (0..n).map(|_| 0.25 * r.int(-12, 12)).collect(),
         _ => (0..n).map(|_| if r.chance(1, 8) { 0.0 } else { let m = r.int(1, 4); if r.chance(1, 2) { m } else { -m } }).collect(),
     };
